@@ -17,8 +17,12 @@ From Attrs Require Import Base.
 Definition keyid := nat.          (* a user key function, identified by a number *)
 Definition name := nat.           (* a field name, identified by a number *)
 
-(** field-level [eq=] / [order=] / [cmp=]: [None], [True], [False] or a callable *)
-Inductive setting := SN | ST | SF | SK (k : keyid).
+(** field-level [eq=] / [order=] / [cmp=]: [None], [True], [False], a callable, or
+    ([SKf]) a callable OBJECT whose truth value is False (empty callable dict subclass,
+    [__bool__] returning False, [__len__] returning 0) *)
+Inductive setting := SN | ST | SF | SK (k : keyid) | SKf (k : keyid).
+(** a key function object as held by [_CountingAttr]: its number and its truth value *)
+Definition ckey := (keyid * bool)%type.
 (** class-level [eq=] / [order=] / [cmp=] *)
 Inductive tri := TN | TT | TF.
 Inductive api := AttrS | Define.
@@ -33,12 +37,15 @@ Record fld := F { f_name : name; f_eq : bool; f_eq_key : option keyid;
 Definition is_set (s : setting) : bool := match s with SN => false | _ => true end.
 
 (** inner helper [decide_callable_or_boolean] (argument is not None) *)
-Definition decide_callable_or_boolean (s : setting) : bool * option keyid :=
-  match s with SK k => (true, Some k) | ST => (true, None) | _ => (false, None) end.
+Definition decide_callable_or_boolean (s : setting) : bool * option ckey :=
+  match s with
+  | SK k => (true, Some (k, true)) | SKf k => (true, Some (k, false))
+  | ST => (true, None) | _ => (false, None)
+  end.
 
 (** [_determine_attrib_eq_order(cmp, eq, order, default_eq)] *)
 Definition determine_attrib_eq_order (cmp eq order : setting) (default_eq : bool)
-  : res (bool * option keyid * bool * option keyid) :=
+  : res (bool * option ckey * bool * option ckey) :=
   if is_set cmp && (is_set eq || is_set order) then VErr
   else if is_set cmp then
     let '(c, ck) := decide_callable_or_boolean cmp in Ok (c, ck, c, ck)
@@ -47,9 +54,15 @@ Definition determine_attrib_eq_order (cmp eq order : setting) (default_eq : bool
     let '(o, ok) := match order with SN => (e, ek) | _ => decide_callable_or_boolean order end in
     if negb e && o then VErr else Ok (e, ek, o, ok).
 
-(** [eq_key or eq] / [order_key or order] as [Attribute.__init__] rebuilds the argument *)
-Definition key_or_flag (k : option keyid) (b : bool) : setting :=
-  match k with Some k => SK k | None => if b then ST else SF end.
+(** [eq_key if eq_key is not None else eq] (same for order) as [Attribute.__init__]
+    rebuilds the argument: a key object is kept whatever its truth value (since the fix
+    "apply eq/order key callables that are falsy"; before it the code said [eq_key or eq]
+    and dropped falsy callables).  The later tests in [_make_eq_script] / [_make_order]
+    are [is not None] as well. *)
+Definition key_or_flag (k : option ckey) (b : bool) : setting :=
+  match k with Some (k, true) => SK k | Some (k, false) => SKf k | None => if b then ST else SF end.
+Definition key_id (k : option ckey) : option keyid :=
+  match k with Some (k, _) => Some k | None => None end.
 
 (** [attrib(cmp=, eq=, order=)] followed by [Attribute.from_counting_attr] /
     [Attribute.__init__], which resolves a second time *)
@@ -59,7 +72,7 @@ Definition make_attribute (n : name) (cmp eq order : setting) : res fld :=
   | Ok (e, ek, o, ok) =>
       match determine_attrib_eq_order SN (key_or_flag ek e) (key_or_flag ok o) true with
       | VErr => VErr
-      | Ok (e', ek', o', ok') => Ok (F n e' ek' o' ok')
+      | Ok (e', ek', o', ok') => Ok (F n e' (key_id ek') o' (key_id ok'))
       end
   end.
 
@@ -204,8 +217,9 @@ Fixpoint effective (gen : cls -> bool) (chain : list cls) : option (list fld) :=
     [Vi z]: the int z.  [Vs i]: scripted object number i whose [__eq__] / ordering
     methods return what the case's script table says (left operand decides).
     [Vn i]: the float NaN object number i (never equal, never ordered; identical
-    only to itself). *)
-Inductive cval := Vi (z : Z) | Vs (i : nat) | Vn (i : nat).
+    only to itself).
+    [Vo]: [None].  [Ve]: the empty string (a falsy value that is neither None nor a number). *)
+Inductive cval := Vi (z : Z) | Vs (i : nat) | Vn (i : nat) | Vo | Ve.
 
 (** script table: object id -> (outcome of [==], outcome of [<], [<=], [>], [>=]) *)
 Definition script := list (nat * (outcome * outcome)).
@@ -228,7 +242,9 @@ Definition c_py_eq (s : script) (a b : cval) : outcome :=
   | Vs i, _ => fst (script_get s i)
   | Vi _, Vs j => fst (script_get s j)        (* int.__eq__ -> NotImplemented -> reflected *)
   | Vi x, Vi y => of_bool (Z.eqb x y)
-  | _, _ => PFalse                            (* NaN involved *)
+  | Vo, Vs j | Ve, Vs j => fst (script_get s j)
+  | Vo, Vo | Ve, Ve => PTrue
+  | _, _ => PFalse                            (* NaN involved, or different kinds *)
   end.
 
 Definition c_py_cmp (s : script) (op : cmpop) (a b : cval) : outcome :=
@@ -236,6 +252,9 @@ Definition c_py_cmp (s : script) (op : cmpop) (a b : cval) : outcome :=
   | Vs i, _ => snd (script_get s i)
   | Vi _, Vs j => snd (script_get s j)
   | Vi x, Vi y => of_bool (z_cmp op x y)
+  | Vo, Vs j | Ve, Vs j => snd (script_get s j)
+  | Ve, Ve => of_bool (match op with Le | Ge => true | _ => false end)
+  | Vo, _ | _, Vo | Ve, _ | _, Ve => PRaise exc_TypeError    (* None < x, '' < 1 *)
   | _, _ => PFalse
   end.
 
@@ -245,6 +264,7 @@ Definition c_py_is (a b : cval) : bool :=
   | Vi x, Vi y => Z.eqb x y
   | Vs i, Vs j => Nat.eqb i j
   | Vn i, Vn j => Nat.eqb i j
+  | Vo, Vo | Ve, Ve => true
   | _, _ => false
   end.
 
@@ -253,13 +273,22 @@ Definition c_py_is (a b : cval) : bool :=
     dict and an object defining only [__eq__]; the model keeps a canonical int with the
     same [==] classes ([max(v,1)]: the sets {0,8} / {8,0} / {v}; [v]: the dict {0: v};
     [v % 2]: the eq-only object).  On a scripted object key k returns its
-    pre-built variant number [100*(k+1)+i]; on NaN a new NaN object. *)
+    pre-built variant number [100*(k+1)+i]; on NaN a new NaN object.
+    All keys accept the falsy non-numbers None and '' and treat them like 0 — except
+    key 7: None -> 1, '' -> 1, 0 -> None, other v -> v  (so [key v] can BE None), and
+    key 8: None, '', 0 -> 1, other v -> v  (falsy values land on the image of 1). *)
+Definition int_key (k : keyid) (z : Z) : Z :=
+  match k with 0 => Z.opp z | 1 => Z.abs z | 2 => Z.modulo z 2
+             | 4 => Z.max z 1 | 5 => z | 6 => Z.modulo z 2
+             | 7 => z | 8 => if Z.eqb z 0 then 1%Z else z
+             | 100 => Z.modulo z 2 | 102 => Z.abs z      (* 100, 101, 102: the falsy callable objects *)
+             | _ => Z.min z 1 end.
 Definition c_keyf (k : keyid) (v : cval) : cval :=
   match v with
-  | Vi z => Vi (match k with 0 => Z.opp z | 1 => Z.abs z | 2 => Z.modulo z 2
-                         | 4 => Z.max z 1 | 5 => z | 6 => Z.modulo z 2 | _ => Z.min z 1 end)
+  | Vi z => if Nat.eqb k 7 && Z.eqb z 0 then Vo else Vi (int_key k z)
   | Vs i => Vs (100 * (k + 1) + i)
   | Vn i => Vn (100 * (k + 1) + i)
+  | Vo | Ve => if Nat.eqb k 7 then Vi 1 else Vi (int_key k 0)
   end.
 
 Definition cval_eqb (a b : cval) : bool :=
@@ -267,6 +296,7 @@ Definition cval_eqb (a b : cval) : bool :=
   | Vi x, Vi y => Z.eqb x y
   | Vs i, Vs j => Nat.eqb i j
   | Vn i, Vn j => Nat.eqb i j
+  | Vo, Vo | Ve, Ve => true
   | _, _ => false
   end.
 
